@@ -108,8 +108,13 @@ class SuccessionDiagram:
             config = SuccessionDiagram.default_config()
         self.config = config
 
-        # Original Boolean network.
-        self.network: BooleanNetwork = cleanup_network(network)
+        # Original Boolean network. The pickled state stores the network as `.aeon` text
+        # and parsing it back orders the variables by name. Node keys depend on the variable
+        # order, so use that canonical order from the start (otherwise the keys of an
+        # unpickled diagram are stale, e.g. after `sanitize_network_names` renamed a variable).
+        self.network: BooleanNetwork = cleanup_network(
+            BooleanNetwork.from_aeon(cleanup_network(network).to_aeon())
+        )
         """
         The Boolean network represented as a `biodivine_aeon.BooleanNetwork` object.
         """
